@@ -386,6 +386,22 @@ def rule_ods(ctx: Ctx) -> RuleReport:
     seen = tags_in(cl.iter, sh.module) | {t for i in cl.body if isinstance(i, ast.If) for t in tags_in(i.test, sh.module)}
     if "covered-table-cell" in seen and "table-cell" in seen:
         rep.ok({"cells": "table-cell and covered-table-cell, in document order"})
+        # ... and a covered cell is a cell like any other for the column count: table:number-columns-repeated applies to it as well
+        # (a merge over four columns is one table-cell plus ONE covered-table-cell with number-columns-repeated="3")
+        reads_repeat = [st for st in cl.body if any(isinstance(x, ast.Call) and isinstance(x.func, ast.Attribute) and x.func.attr == "get" and x.args and "repeated" in str(ctx.folder.fold(sh.module, x.args[0])) for x in ast.walk(st))]
+        if not reads_repeat:
+            raise AnalysisError("C13-ODS: the cell loop no longer reads table:number-columns-repeated")
+        first_repeat = cl.body.index(reads_repeat[0])
+        for st in cl.body[:first_repeat]:
+            for cnt in [x for x in ast.walk(st) if isinstance(x, ast.Continue)]:
+                holder = next((i for i in ast.walk(st) if isinstance(i, ast.If) and cnt in i.body), None)
+                tn = tags_in(holder.test, sh.module) if holder is not None else set()
+                positive = holder is not None and not any(isinstance(o, (ast.NotEq, ast.NotIn)) for c_ in ast.walk(holder.test) if isinstance(c_, ast.Compare) for o in c_.ops)
+                if positive and ("covered-table-cell" in tn or "table-cell" in tn):
+                    rep.fail(Finding("C13-ODS", ODS, sh.qual, "cell kind leaves the loop before the repeat count is read: " + anorm(holder.test, sh.node), f"cells selected by `{short(holder.test, 60)}` are given one position and skip the statement that reads table:number-columns-repeated: a covered cell that stands for three columns counts as one and every cell behind a wide merge moves to the left", line=cnt.lineno))
+                    break
+        else:
+            rep.ok({"cells": "covered cells take the same number-columns-repeated handling"})
     else:
         rep.fail(Finding("C13-ODS", ODS, sh.qual, "cells from " + anorm(cl.iter, sh.node), f"the cells of a row are taken from `{short(cl.iter, 60)}` and covered cells (the positions behind a merged cell) are not counted: every cell after a merged cell moves to the left and the row is shorter than in the source", line=cl.lineno))
     return rep
@@ -422,6 +438,36 @@ def rule_grid(ctx: Ctx) -> RuleReport:
             rep.ok({"docx_table": need, "padded": True})
         else:
             rep.fail(Finding("C13-GRID", DOCX_, tf.qual, f"w:{need} not honoured", f"the table reader never looks at w:{need} ({why}); cell (i, j) of the returned grid is then not source cell (i, j)", line=rl.lineno))
+    # the grid properties are read from the row's / cell's own property element: a descendant search finds the gridSpan of a cell of a table
+    # nested further down and applies it to the outer cell
+    grid_tags = {"gridSpan", "gridBefore", "gridAfter"}
+
+    def _is_grid_tag(e) -> bool:
+        v = ctx.folder.fold(dm, e) if isinstance(e, (ast.Name, ast.Constant, ast.JoinedStr)) else None
+        return isinstance(v, str) and v.rsplit("}", 1)[-1] in grid_tags
+
+    grid_fns = {tf.key: (tf, set())}
+    for c in ast.walk(rl):
+        if isinstance(c, ast.Call) and isinstance(c.func, ast.Name) and c.func.id in dm.functions:
+            g = dm.functions[c.func.id]
+            ps = [a.arg for a in g.node.args.args]
+            tagp = {ps[k] for k, a in enumerate(c.args) if k < len(ps) and _is_grid_tag(a)}
+            if tagp:
+                grid_fns.setdefault(g.key, (g, set()))[1].update(tagp)
+    for g, tagparams in grid_fns.values():
+        for c in ast.walk(g.node):
+            if not (isinstance(c, ast.Call) and isinstance(c.func, ast.Attribute) and c.func.attr in ("iter", "find", "findall", "iterfind", "findtext") and c.args):
+                continue
+            a0 = c.args[0]
+            about_grid = _is_grid_tag(a0) or (isinstance(a0, ast.Name) and a0.id in tagparams)
+            if not about_grid:
+                continue
+            path = ctx.folder.fold(dm, a0) if not isinstance(a0, ast.Name) or a0.id not in tagparams else ""
+            descendant = c.func.attr == "iter" or (isinstance(path, str) and ".//" in path)
+            if descendant:
+                rep.fail(Finding("C13-GRID", DOCX_, g.qual, f"grid property by descendant search: {anorm(c, g.node)}", f"`{short(c, 50)}` looks for w:gridSpan / w:gridBefore / w:gridAfter in the whole subtree of the row or cell: the span of a cell of a table nested inside is found first and applied to the outer cell, which gets columns it does not have", line=c.lineno))
+            else:
+                rep.ok({"grid_property_lookup": short(c, 50), "own_property_element": True})
     # a "closest descendants" helper (yield the child when its tag is in the set, otherwise search inside it) looks through every element
     # that is not in the set -- also through a nested table. Whoever asks it for paragraphs must name the table tag as well, or the
     # paragraphs of a table nested in a cell are taken for paragraphs of the outer cell (and are reported again with the nested table)
